@@ -15,11 +15,16 @@ How the processes are made.  Starting an interpreter and importing ppci costs
 ``/venv/bin/python`` child (env PYTHONHASHSEED=<variant>, PYTHONPATH=$VERIF_REPO,
 cwd=$VERIF_TMP, watchdog) that imports ``ppci.api``, calls ``get_arch(target)``
 (the x86-64 assembler tables alone take 2 s to build) and then ``os.fork()``s
-once per compile: every compile runs in its own process whose state is that of
-a fresh interpreter that has imported ppci, described the target and compiled
-nothing (per-compile ``signal.alarm`` watchdog and address-space limit).  Distinct variants are distinct interpreter
+once per group of builds (the C/C3 inputs of one optimisation level; the
+assembler input): the first build of a group runs in a process whose state is
+that of a fresh interpreter that has imported ppci, described the target and
+compiled nothing, the following ones after the earlier inputs of their group
+(the same history in every variant, so all comparisons stay like-for-like; the
+"compiled earlier" variant has a different history for every build).  Every
+build has a CPU-time budget (ITIMER_VIRTUAL) and an address-space limit.  Distinct variants are distinct interpreter
 processes (own hash seed, own address-space layout).  The "compiled earlier"
-variant does not fork: it compiles everything in one process.
+variant does not fork: it compiles an unrelated module at both levels and then
+everything in one process.
 
 Workload (the shared ``cgen`` of DESIGN 2.4 does not exist yet; the design
 allows a private generator because semantic correctness is irrelevant here):
@@ -65,7 +70,7 @@ MANIFEST_ENTRY = {
 TARGETS = ["x86_64", "arm", "arm:thumb", "riscv", "riscv:rvc", "msp430", "avr", "m68k", "mips", "or1k", "xtensa",
            "microblaze"]
 LEVELS = [0, 2]
-SHARD_TIMEOUT = {"quick": 1500, "thorough": 3 * 3600}
+SHARD_TIMEOUT = {"quick": 3000, "thorough": 4 * 3600}
 
 LAYOUT = """
 MEMORY code LOCATION=0x1000 SIZE=0x6000 { SECTION(code) }
@@ -605,14 +610,26 @@ def on_alarm(*a):
     raise Alarm()
 
 def guarded(job):
-    signal.signal(signal.SIGALRM, on_alarm)
-    signal.alarm(spec["alarm"])
+    # CPU-time budget per build (ITIMER_VIRTUAL counts user time of this process: independent of machine load)
+    signal.signal(signal.SIGVTALRM, on_alarm)
+    signal.setitimer(signal.ITIMER_VIRTUAL, spec["alarm"])
     try:
         return build(job)
     except Alarm:
-        return {"obj": "DIED", "img": "-", "err": "alarm"}
+        return {"obj": "DIED", "img": "-", "err": "cpu budget"}
+    except MemoryError:
+        return {"obj": "DIED", "img": "-", "err": "memory budget"}
     finally:
-        signal.alarm(0)
+        signal.setitimer(signal.ITIMER_VIRTUAL, 0)
+
+try:
+    import resource
+    resource.setrlimit(resource.RLIMIT_AS, (spec["mem"], spec["mem"]))
+except Exception:
+    pass
+import gc
+gc.collect()
+gc.freeze()   # keeps the collector of the forked children away from the pages shared with this process
 
 if spec["mode"] == "chain":
     for job in spec["pre"]:
@@ -620,20 +637,19 @@ if spec["mode"] == "chain":
     for job in spec["jobs"]:
         results["jobs"][job["id"]] = guarded(job)
 else:
+    groups = {}
     for job in spec["jobs"]:
+        groups.setdefault(job["group"], []).append(job)
+    for gname in sorted(groups):
         r, w = os.pipe()
         pid = os.fork()
         if pid == 0:
             try:
                 os.close(r)
-                signal.alarm(spec["alarm"])
-                try:
-                    import resource
-                    resource.setrlimit(resource.RLIMIT_AS, (spec["mem"], spec["mem"]))
-                except Exception:
-                    pass
-                out = json.dumps(build(job)).encode()
-                os.write(w, out)
+                out = {}
+                for job in groups[gname]:
+                    out[job["id"]] = guarded(job)
+                os.write(w, json.dumps(out).encode())
             finally:
                 os._exit(0)
         os.close(w)
@@ -645,10 +661,9 @@ else:
             data += chunk
         os.close(r)
         _, status = os.waitpid(pid, 0)
-        if data:
-            results["jobs"][job["id"]] = json.loads(data.decode())
-        else:
-            results["jobs"][job["id"]] = {"obj": "DIED", "img": "-", "err": "status %s" % status}
+        got = json.loads(data.decode()) if data else {}
+        for job in groups[gname]:
+            results["jobs"][job["id"]] = got.get(job["id"], {"obj": "DIED", "img": "-", "err": "status %s" % status})
 with open(sys.argv[2] + ".tmp", "w") as f:
     json.dump(results, f)
 os.replace(sys.argv[2] + ".tmp", sys.argv[2])
@@ -665,7 +680,7 @@ CLAUSE = {"seed1": "hashseed", "seed2": "hashseed", "seed3": "hashseed", "seed4"
 BASE = {"seed1-again": "seed1", "after-unrelated-seed3": "seed3"}
 
 
-def run_variant(name, hashseed, mode, jobs, tmp, keep, alarm=120, pre=None):
+def run_variant(name, hashseed, mode, jobs, tmp, keep, alarm=40, pre=None):
     """Start one interpreter for a variant; -> results dict or {"error": ...}."""
     repo = os.environ.get("VERIF_REPO", "/repo")
     script = os.path.join(tmp, "c30child.py")
@@ -675,9 +690,11 @@ def run_variant(name, hashseed, mode, jobs, tmp, keep, alarm=120, pre=None):
     tag = h([name, [j["id"] for j in jobs]])
     specfile = os.path.join(tmp, "cs-%s-%s.json" % (name, tag))
     outfile = os.path.join(tmp, "co-%s-%s.json" % (name, tag))
+    if os.path.exists(outfile):
+        os.remove(outfile)
     with open(specfile, "w") as f:
         json.dump({"mode": mode, "jobs": jobs, "pre": pre or [], "layout": LAYOUT, "keep": keep, "alarm": alarm,
-                   "mem": 3 << 30}, f)
+                   "mem": 2 << 30}, f)
     env = dict(os.environ)
     env["PYTHONHASHSEED"] = hashseed
     env["PYTHONPATH"] = repo
@@ -686,7 +703,7 @@ def run_variant(name, hashseed, mode, jobs, tmp, keep, alarm=120, pre=None):
     try:
         with open(os.path.join(tmp, "c30child.log"), "ab") as log:
             p = subprocess.run([python, script, specfile, outfile], env=env, cwd=tmp, stdin=subprocess.DEVNULL,
-                               stdout=log, stderr=log, timeout=60 + (alarm + 5) * max(1, len(jobs)) // 4)
+                               stdout=log, stderr=log, timeout=1200)
     except subprocess.TimeoutExpired:
         return {"error": "variant %s: child interpreter exceeded its watchdog" % name}
     if not os.path.exists(outfile):
@@ -807,21 +824,26 @@ def run_shard(spec):
                 obs["avoided"][key] = obs["avoided"].get(key, 0) + 1
                 continue
             jobs.append({"id": "%s@O%d" % (inp, level), "inp": inp, "kind": kind, "target": target, "level": level,
-                         "src": src})
+                         "src": src, "group": "asm" if kind == "asm" else "O%d" % level})
     if not jobs:
         return res
     out = {}
+    live = list(jobs)
     for name, hashseed, mode in variants:
-        r = run_variant(name, hashseed, mode, jobs, tmp, keep, pre=unrelated_jobs(target) if mode == "chain" else None)
+        r = run_variant(name, hashseed, mode, live, tmp, keep, pre=unrelated_jobs(target) if mode == "chain" else None)
         if "error" in r:
             res["inconclusive"].append("%s: %s" % (target, r["error"]))
             return res
         out[name] = r["jobs"]
+        if name == variants[0][0]:  # a build that exhausts its budget is not repeated five more times
+            live = [j for j in live if r["jobs"].get(j["id"], {}).get("obj") != "DIED"]
+            if not live:
+                break
     built = False
     for job in jobs:
         jid, level = job["id"], job["level"]
-        per = {name: out[name].get(jid, {"obj": "MISSING", "img": "-"}) for name, _, _ in variants}
-        if any(p["obj"] in ("DIED", "MISSING") for p in per.values()):
+        per = {name: out.get(name, {}).get(jid, {"obj": "MISSING", "img": "-"}) for name, _, _ in variants}
+        if any(p["obj"] in ("DIED", "MISSING", "ERR:MemoryError") for p in per.values()):
             res["discarded"]["compile_timeout_or_died"] = res["discarded"].get("compile_timeout_or_died", 0) + 1
             continue
         base = per["seed0"]
